@@ -1,13 +1,15 @@
 #!/bin/sh
-# tools/try_seeded.sh <patch.diff> <PROP> [more PROPs…]  — apply a seeded change to /repo, run the quick
-# checks, undo the change straight afterwards.  Never commits anything in /repo.
+# tools/try_seeded.sh <patch.diff> <PROP> [more PROPs…] — run the quick checks against a scratch worktree of
+# /repo with the seeded change applied (VERIF_REPO), so that /repo itself is never modified while other
+# work reads it.  (tools/try_seeded_inplace.sh applies to /repo itself and undoes it straight afterwards.)
 patch="$1"; shift
+wt=/tmp/seeded-wt
 cd /verif
-if ! git -C /repo diff --quiet; then echo "/repo has uncommitted changes; refusing"; exit 2; fi
-git -C /repo apply "$patch" || { echo "patch does not apply"; exit 2; }
+git -C /repo worktree remove --force $wt 2>/dev/null
+git -C /repo worktree add -q --detach $wt HEAD || exit 2
+git -C $wt apply "$patch" || { echo "patch does not apply"; git -C /repo worktree remove --force $wt; exit 2; }
 for p in "$@"; do
-  echo "=== $p with $(basename $(dirname $patch))"
-  ./check "$p" --tier quick --no-build 2>&1 | grep -v "^KNOWN-FINDING" | grep -A1 "^VIOLATION\|^$p \|INFRA\|Traceback" | cut -c1-400 | head -12
+  echo "=== $p with $(basename $(dirname $patch)) ($(basename $(dirname $(dirname $patch))))"
+  VERIF_REPO=$wt ./check "$p" --tier quick --no-build 2>&1 | grep -v "^KNOWN-FINDING" | grep -A1 "^VIOLATION\|^$p \|INFRA\|Traceback" | cut -c1-400 | head -12
 done
-git -C /repo checkout -- .
-git -C /repo status --short | head -3
+git -C /repo worktree remove --force $wt
